@@ -149,6 +149,7 @@ fn window_check(hist: &SharedHist<Ev>, times: &[i128], rate: limiter::Rate, slac
 
 pub async fn run(seed: u64, sched: Rc<Sched>, keep_log: bool) -> (CaseResult, Vec<String>) {
     let mut rng = kit::stream(seed, "limits");
+    let panics0 = kit::panics::count();
     let hist: SharedHist<Ev> = new_hist(keep_log);
     let clock = ctx::ManualClock::new();
     let t0 = clock.now();
@@ -351,7 +352,26 @@ pub async fn run(seed: u64, sched: Rc<Sched>, keep_log: bool) -> (CaseResult, Ve
                 if let Some(gs) = gs {
                     let gq = mux::StreamQueue::new(ctx, many, limiter::Rate::INF);
                     let tq = mux::StreamQueue::new(ctx, 4, limiter::Rate::INF);
-                    let m = mux::Mux::new(mux::Config::rpc_default()).accept(rpc::capability_get_block(), &gq).accept(rpc::capability_push_tx(), &tq);
+                    let sq = mux::StreamQueue::new(ctx, 2, limiter::Rate::INF);
+                    let extreme_states = arng.gen_range(0..100) < 50;
+                    // The adversary also *serves* get_block (so that the node's fetcher consults what
+                    // this peer announced), without ever answering.
+                    let vq = mux::StreamQueue::new(ctx, 1, limiter::Rate::INF);
+                    let m = mux::Mux::new(mux::Config::rpc_default())
+                        .accept(rpc::capability_get_block(), &gq)
+                        .accept(rpc::capability_push_tx(), &tq)
+                        .accept(rpc::capability_push_block_store_state(), &sq)
+                        .connect(rpc::capability_get_block(), &vq);
+                    s.spawn_bg(async move {
+                        while let Ok(mut st) = vq.open(ctx).await {
+                            let mut len = [0u8; 4];
+                            let _ = st.read.read_exact(ctx, &mut len).await;
+                            if ctx.sleep(time::Duration::seconds(2)).await.is_err() {
+                                break;
+                            }
+                        }
+                        Ok(())
+                    });
                     s.spawn_bg(async move {
                         let _ = m.run(ctx, gs).await;
                         Ok(())
@@ -362,6 +382,28 @@ pub async fn run(seed: u64, sched: Rc<Sched>, keep_log: bool) -> (CaseResult, Ve
                             let (q, r, d, o, c) = (gq.clone(), gb_reqs.clone(), gb_done.clone(), opened[1].clone(), clock.clone());
                             async move {
                                 caller(ctx, q, r, sit, d, o, c, t0).await;
+                                Ok(())
+                            }
+                        });
+                    }
+                    // Block-store announcements with extreme and inconsistent ranges (C10: no input
+                    // may crash the node - the fetcher consults the announced range of every peer).
+                    if extreme_states {
+                        s.spawn_bg({
+                            let (q, d, o, c) = (sq.clone(), Arc::new(Mutex::new(vec![])), Arc::new(Mutex::new(vec![])), clock.clone());
+                            let reqs: Vec<Vec<u8>> = [
+                                (0u64, Some(u64::MAX)), (0, Some(u64::MAX - 1)), (u64::MAX, None), (u64::MAX, Some(u64::MAX)), (7, Some(3)), (0, None), (1, Some(0)),
+                            ]
+                            .iter()
+                            .map(|(first, last)| {
+                                rpc::encode_push_block_store_state_req(zksync_consensus_engine::BlockStoreState {
+                                    first: validator::BlockNumber(*first),
+                                    last: last.map(|n| zksync_consensus_engine::Last::PreGenesis(validator::BlockNumber(n))),
+                                })
+                            })
+                            .collect();
+                            async move {
+                                caller(ctx, q, reqs, 0, d, o, c, t0).await;
                                 Ok(())
                             }
                         });
@@ -485,6 +527,11 @@ pub async fn run(seed: u64, sched: Rc<Sched>, keep_log: bool) -> (CaseResult, Ve
         hist.probe("in_situ_limiter_refilled");
     }
     hist.fault("greedy_authenticated_peer");
+    for p in kit::panics::since(panics0) {
+        if !p.contains("one of the tasks panicked") {
+            hist.violation("C10", "node_panic", format!("in situ, fed by an authenticated peer: {p}"));
+        }
+    }
     // Shut down.
     held.lock().unwrap().clear();
     let _ = kill_a.send(());
